@@ -60,6 +60,7 @@ STEP_FNS = {
     "unset": [VS + "unset"],
     "pop": [VS + "pop_context_impl"],
     "push": [VS + "push_context_impl"],
+    "env": [VS + "env_c_strings"],
     "attrs": [VS + "get_or_new", "yash_env::variable::VariableRefMut::export", "yash_env::variable::VariableRefMut::make_read_only"],
 }
 STEP_CLAUSE = {
@@ -69,6 +70,7 @@ STEP_CLAUSE = {
     "pop": "leaving a context removes exactly the entries of that context (locals / temporary assignments vanish, outer variables persist)",
     "push": "entering a context changes no existing variable",
     "attrs": "export / read-only marks apply to the visible variable only",
+    "env": "the environment for executed programs is exactly the visible exported variables with their current values",
 }
 
 
@@ -80,7 +82,8 @@ assign_r_m0 assign_r_m1 assign_rr_m0 assign_rr_m1 assign_rr_m2 assign_rr_m3 assi
 assign_rrv_m5 assign_rrv_m7 assign_rvr_m2 assign_rvr_m7 assign_rvv_m6 assign_rvv_m7
 unset_r_m1 unset_rr_m1 unset_rr_m2 unset_rr_m3 unset_rv_m1 unset_rv_m2 unset_rv_m3 unset_rrr_m1 unset_rrv_m5 unset_rvr_m5 unset_rvv_m6
 pop_rr_m3 pop_rv_m2 pop_rv_m3 pop_rrv_m5 pop_rvr_m7
-lookup_rr_m3 lookup_rv_m1 lookup_rvr_m5 attrs_rr_m3 attrs_rv_m1 push_r_m1
+lookup_rr_m3 lookup_rv_m1 lookup_rvr_m5 attrs_rr_m3 attrs_rv_m1 push_r_m1 assign_rrv_m3
+env_r_m1 env_rr_m3 env_rv_m3 env_rrv_m5
 """.split())
 
 
@@ -108,8 +111,7 @@ def run(tier, seed, only=None):
         "T7v: the Location stored in a Variable / PositionalParams is replaced by a unit stand-in (only stored and reported; no scope decision reads it)",
         "simulation step: pre-state = any per-name stack over a context stack of <= 3 contexts (every shape, every occupancy), entry contents symbolic; "
         "values are scalar strings; array values, quirks and positional parameters are outside",
-        "which command kinds push / pop which contexts (perform_assignments, function calls, built-in types) and the environment "
-        "handed to executed programs (env_c_strings: CString building) are outside: command execution (async closures) / string formatting",
+        "which command kinds push / pop which contexts (perform_assignments, function calls, built-in types) is outside: command execution (async closures)",
     ]
 
     def body():
